@@ -757,7 +757,8 @@ class SizeCalc:
         if k in LEAF_LIMITS:
             return LEAF_LIMITS[k]
         if k == "builtin":
-            return BUILTIN_LIMITS[it["bname"]]
+            # (limits measured from the hand-written type of the expansion, when the caller supplies them, take precedence over the table)
+            return getattr(self, "builtin_limits", {}).get(it["bname"]) or BUILTIN_LIMITS[it["bname"]]
         if k in ("enum", "flag"):
             w = BASIC_INT[it["wire"]][0]
             return (w, w)
